@@ -13,7 +13,8 @@ RULE = ("StochasticNetwork worlds: 1-4 stations, more simultaneous sessions than
         "non-trivial = >=1 session waited and was later admitted and >=1 left while waiting; distinct = history signature + "
         "waiting pattern")
 PROBES = ["waited_then_admitted", "left_while_waiting", "early_unplug", "two_or_more_waiting_at_admission", "direct_plugin",
-          "satisfied_residual_evicted", "same_seed_rerun", "choice_first", "choice_last", "resumed"]
+          "satisfied_residual_evicted", "same_seed_rerun", "choice_first", "choice_last", "resumed", "generated_multi_day_queue",
+          "queried_between_registrations"]
 FAULT_DIMENSION = "adversarial random.choice tape (always first / always last free station); crash + rerun"
 ASSUMPTIONS = ["the model does not predict *which* free station is chosen, only that it was free",
                "early departure: a connected EV is 'satisfied' when requested - delivered <= 1e-3 kWh (the library's fully_charged)"]
@@ -26,10 +27,61 @@ PROFILE = world.profile(net="stochastic", stations=(1, 4), horizon=(4, 30), hot=
 def gen(rs, tier):
     sc = world.gen_world(rs, PROFILE)
     sc["party"]["subset_mode"] = "all"
+    r = world.sub(rs, "c19x")
+    if len(sc["network"]["stations"]) >= 2 and r.random() < 0.3:
+        sc["network"]["query_after_first_registrations"] = r.randrange(len(sc["network"]["stations"]) - 1)
+    if rs % 10 == 3:
+        # sessions come out of the library's own generator (seeded sample override) for a queue covering several days
+        sc["sim"]["period"] = 60
+        days = [r.randint(1, 4) for _ in range(r.randint(2, 3))]
+        rows = [[round(r.uniform(0, 23.9), 3), round(r.choice([r.uniform(1, 6), r.uniform(8, 30)]), 3), round(r.uniform(1, 30), 3)]
+                for _ in range(sum(days))]
+        sc["generated"] = {"days": days, "rows": rows, "voltage": sc["network"]["stations"][0]["voltage"]}
+        sc["sessions"] = []
+        sc["extra_events"] = []
+        sc["faults"] = []
     return sc
 
 
+def materialise(sc, out):
+    """Run StochasticEvents.generate_events (sample() overridden by the scenario's rows) and turn its EVs into sessions."""
+    from acnportal.acnsim.events import stochastic_events as se
+    g = sc["generated"]
+    rows = [list(x) for x in g["rows"]]
+    state = {"k": 0}
+
+    class Seeded(se.StochasticEvents):
+        def sample(self_, n):
+            a = sut.np.array(rows[state["k"]: state["k"] + n], dtype=float)
+            state["k"] += n
+            return a
+    q = Seeded().generate_events(g["days"], sc["sim"]["period"], g["voltage"], 7.0)
+    evs = [e.ev for _, e in q.queue]
+    ids = [e.session_id for e in evs]
+    out.probe("generated_multi_day_queue")
+    if len(set(ids)) != len(ids):
+        dup = sorted({i for i in ids if ids.count(i) > 1})
+        out.add("C19/generated_sessions_share_ids", "generate_events(%s days) produced %d sessions but only %d distinct ids (e.g. %s): the "
+                "network and the session history are keyed by id, so one of each pair is lost" % (g["days"], len(ids), len(set(ids)), dup[:3]))
+        return None
+    st0 = sc["network"]["stations"][0]["id"]
+    return [{"session_id": e.session_id, "station": st0, "arrival": int(e.arrival), "departure": int(e.departure),
+             "energy": float(e.requested_energy), "battery": {"type": "Battery", "capacity": float(e._battery._capacity),
+                                                               "init": float(e._battery._current_charge), "max_power": float(e._battery.max_charging_power)}}
+            for e in sorted(evs, key=lambda e: (e.arrival, e.session_id))]
+
+
 def check(sc):
+    if sc.get("generated") and not sc["sessions"]:
+        from ..engine import Outcome
+        pre = Outcome()
+        sess_ = materialise(sc, pre)
+        if sess_ is None or not sess_:
+            pre.digest = "generated"
+            return pre
+        sc = dict(sc, sessions=[s_ for s_ in sess_ if s_["departure"] > s_["arrival"]])
+        if not sc["sessions"]:
+            return pre
     tr = driver.run_world(sc, observe=0)
     ok_required = True
     sess = {s["session_id"]: s for s in sc["sessions"]}
@@ -151,6 +203,10 @@ def check(sc):
     out.probe("waited_then_admitted", len(admitted_after_wait))
     out.probe("left_while_waiting", len(left_waiting))
     out.probe("resumed", len(tr.resumes))
+    if sc.get("generated"):
+        out.probe("generated_multi_day_queue")
+    if "query_after_first_registrations" in sc["network"]:
+        out.probe("queried_between_registrations")
     out.probe("choice_" + sc["tapes"]["choice"] if sc["tapes"]["choice"] in ("first", "last") else "direct_plugin", 0)
     if sc["tapes"]["choice"] in ("first", "last"):
         out.probe("choice_" + sc["tapes"]["choice"])
